@@ -740,7 +740,8 @@ def fam_recerr(rnd, i):
                 steps.append(call(w, "add", ("r",) if d == ("r", "sub") else ("r", "sub"), "rel"))
             else:
                 steps.append(call(w, "remove", ("r", "nothere"), "rel"))
-        steps += [drain(w), fs("create", d + ("f1",)), drain(w), fs("chmod", x), drain(w), fs("rename", x, to=d + ("x2",)), drain(w), obs(w),
+        # (x is not renamed: registering it under a new name would fail again at the same fault point)
+        steps += [drain(w), fs("create", d + ("f1",)), drain(w), fs("chmod", x), drain(w), obs(w),
                   call(w, "close"), drain(w), obs(w)]
     elif mode == "close":
         steps += [call(w, "close"), drain(w), obs(w)]
